@@ -420,6 +420,7 @@ private:
     void doBulk(const Step &st, StepRecord &rec);
     void doParamEdit(const Step &st, StepRecord &rec);
     void doFrameDup(const Step &st, StepRecord &rec);
+    void doLookup(const Step &st, StepRecord &rec);
     void doFrameSubmit(const Step &st, StepRecord &rec);
     void doFrameMutate(const Step &st, StepRecord &rec);
     void doCol(const Step &st, StepRecord &rec, bool analog);
@@ -557,6 +558,7 @@ ClaimedCounts loading_claims() {
     cc.values = v > (static_cast<unsigned __int128>(1) << 62) ? (1ull << 62) : static_cast<uint64_t>(v);
     unsigned __int128 o = (static_cast<unsigned __int128>(2) + h.nb3dPoints() + static_cast<unsigned __int128>(h.nbAnalogByFrame()) * (1 + static_cast<unsigned __int128>(h.nbAnalogs()))) * h.nbFrames();
     cc.objects = o > (static_cast<unsigned __int128>(1) << 62) ? (1ull << 62) : static_cast<uint64_t>(o);
+    cc.frames = h.nbFrames(); cc.points = h.nb3dPoints(); cc.subframes = h.nbAnalogByFrame(); cc.channels = h.nbAnalogs();
     return cc;
 }
 } // namespace
@@ -926,6 +928,77 @@ void World::doParamEdit(const Step &st, StepRecord &rec) {
     }
 }
 
+// Read-only: the by-name getters. What they return goes into the step's digest (so that C18's solo-equivalence, C19's
+// build comparison and the sanitizers see these paths); a by-name answer that disagrees with the by-index view of the
+// same object is reported as a NOTE only (no listed property speaks about getters).
+void World::doLookup(const Step &st, StepRecord &rec) {
+    if (!obj || st.i.empty()) { rec.skipped = true; return; }
+    Rng r(static_cast<uint64_t>(st.i[0]));
+    uint64_t h = 0x10c;
+    auto note = [&](const std::string &what) { if (res.notes.size() < 3) res.notes.push_back("NOTE unclaimed=getter-by-name " + what); };
+    for (int q = 0; q < 8; ++q) {
+        unsigned kind = static_cast<unsigned>(r.below(4));
+        uint64_t pick = r.next() >> 1;
+        bool missing = r.chance(1, 8);
+        try {
+            if (kind == 0 && !cur.frames.empty()) {
+                size_t f = pick % cur.frames.size();
+                const SnapFrame &sf = cur.frames[f];
+                if (sf.pts.empty()) continue;
+                size_t want = (pick / 7) % sf.pts.size();
+                std::string name = missing ? "no_such_point_" : sf.pts[want].name;
+                size_t first = 0; while (first < sf.pts.size() && sf.pts[first].name != name) ++first;
+                const EPoints &pts = obj->data().frame(f).points();
+                size_t idx = pts.pointIdx(name);
+                const EPoint &p = pts.point(name);
+                h = mix(h, mix(idx, f2bits(p.x())));
+                if (idx != first || f2bits(p.x()) != sf.pts[first].x) note("point('" + name + "') of frame " + tos(f) + " is not the first point of that name");
+            } else if (kind == 1 && !cur.frames.empty()) {
+                size_t f = pick % cur.frames.size();
+                const SnapFrame &sf = cur.frames[f];
+                if (sf.subs.empty()) continue;
+                size_t k = (pick / 5) % sf.subs.size();
+                if (sf.subs[k].empty()) continue;
+                size_t want = (pick / 11) % sf.subs[k].size();
+                std::string name = missing ? "no_such_channel_" : sf.subs[k][want].name;
+                size_t first = 0; while (first < sf.subs[k].size() && sf.subs[k][first].name != name) ++first;
+                const ESub &sub = obj->data().frame(f).analogs().subframe(k);
+                size_t idx = sub.channelIdx(name);
+                const EChan &ch = sub.channel(name);
+                h = mix(h, mix(idx, f2bits(ch.data())));
+                if (idx != first || f2bits(ch.data()) != sf.subs[k][first].v) note("channel('" + name + "') of frame " + tos(f) + " sub-frame " + tos(k) + " is not the first channel of that name");
+            } else if (kind == 2 && !cur.groups.empty()) {
+                size_t g = pick % cur.groups.size();
+                std::string name = missing ? "no_such_group_" : cur.groups[g].name;
+                size_t first = 0; while (first < cur.groups.size() && cur.groups[first].name != name) ++first;
+                size_t idx = obj->parameters().groupIdx(name);
+                const ezc3d::ParametersNS::GroupNS::Group &grp = obj->parameters().group(name);
+                h = mix(h, mix(idx, grp.nbParameters()));
+                if (idx != first || grp.nbParameters() != cur.groups[first].params.size()) note("group('" + name + "') is not the first group of that name");
+            } else if (kind == 3 && !cur.groups.empty()) {
+                size_t g = pick % cur.groups.size();
+                const SnapGroup &sg = cur.groups[g];
+                if (sg.params.empty() || sg.name.empty()) continue;
+                size_t want = (pick / 13) % sg.params.size();
+                std::string name = missing ? "no_such_parameter_" : sg.params[want].name;
+                size_t first = 0; while (first < sg.params.size() && sg.params[first].name != name) ++first;
+                const ezc3d::ParametersNS::GroupNS::Group &grp = obj->parameters().group(g);
+                size_t idx = grp.parameterIdx(name);
+                const EParam &p = grp.parameter(name);
+                h = mix(h, mix(idx, hash_str(p.description()) + static_cast<uint64_t>(p.type())));
+                if (idx != first) note("parameter('" + name + "') of group " + sg.name + " is not the first parameter of that name");
+            }
+            if (missing) h = mix(h, 0xbadULL); // a name the object does not hold was answered without an exception
+        } catch (...) {
+            std::string exc = classify_current_exception(&lastWhat);
+            h = mix(h, hash_str(exc));
+            if (!missing) note("a name the object holds was refused with " + exc);
+        }
+    }
+    rec.aux = h;
+    probe("lookup.by-name");
+}
+
 void World::doLock(const Step &st, StepRecord &rec, bool lock) {
     if (!obj || st.s.empty()) { rec.skipped = true; return; }
     Snapshot before = cur;
@@ -1284,7 +1357,17 @@ void World::doSave(const Step &st, StepRecord &rec) {
         disk_remove(rp);
         if (stop) return;
     }
-    disk_remove(path);
+    // what the destination holds before the save: nothing (i1 absent or 0), whatever an earlier save of this run left
+    // there (i1 = -1), or i1 bytes of seeded junk (a longer or shorter file of somebody else)
+    int64_t stale = (st.i.size() > 1 && !fs.dest_is_dir) ? st.i[1] : 0;
+    if (stale == 0) disk_remove(path);
+    else if (stale > 0) {
+        std::vector<uint8_t> junk(static_cast<size_t>(stale > (1 << 20) ? (1 << 20) : stale));
+        Rng jr(static_cast<uint64_t>(stale) * 0x9e3779b97f4a7c15ull + 3);
+        for (auto &b : junk) b = static_cast<uint8_t>(jr.below(255) + 1); // no zero bytes: stale content is never mistaken for padding
+        disk_put(path, junk);
+        probe("save.over-a-stale-file");
+    } else probe("save.over-the-previous-save");
     if (fs.dest_is_dir) disk_set_dir(path, true);
     std::vector<WriteRec> trace;
     disk_begin_op(fs);
@@ -1294,7 +1377,7 @@ void World::doSave(const Step &st, StepRecord &rec) {
     if (fs.dest_is_dir) disk_set_dir(path, false);
     res.st.saves++;
     res.st.io_calls += os.write_calls + os.seeks + os.opens;
-    res.st.faults_fired += os.f_open_fail + os.f_budget + os.f_eio + os.f_short_write + os.f_eintr_w;
+    res.st.faults_fired += os.f_open_fail + os.f_budget + os.f_eio + os.f_short_write + os.f_eintr_w + os.f_seek;
     if (os.hard_fired) res.st.hard_fired++;
     std::vector<uint8_t> img;
     bool exists = disk_get(path, img);
@@ -1302,7 +1385,7 @@ void World::doSave(const Step &st, StepRecord &rec) {
     cur = take_snapshot(*obj);
 
     if (on(ORC_C15)) {
-        const char *kind = os.f_open_fail ? "open" : os.f_budget ? "budget" : os.f_eio ? "write-call" : "none";
+        const char *kind = os.f_open_fail ? "open" : os.f_budget ? "budget" : os.f_eio ? "write-call" : os.f_seek ? (fs.fail_seek_call == 0 ? "not-seekable" : "seek-call") : "none";
         if (os.hard_fired && !rec.threw)
             violate("C15", std::string("silent/") + kind, std::string("save returned normally although the OS refused (") + kind + " fault, " + tos(os.bytes_accepted) + " bytes accepted" + (haveRef ? " of " + tos(refImg.size()) : "") + ")");
         else if (os.hard_fired && rec.exc != "ios_failure")
@@ -1323,6 +1406,23 @@ void World::doSave(const Step &st, StepRecord &rec) {
             std::string region = uoff < 512 ? ((uoff / 2 + 1 >= 199 && uoff / 2 + 1 <= 234) ? "header.event-labels" : "header.word" + tos(uoff / 2 + 1)) : "body";
             violate("C14", "undefined-bytes-written/" + region, "a byte handed to the OS write call at file offset " + tos(uoff) + " is not defined (memcheck)");
         }
+    }
+    if (!stop && on(ORC_C14) && stale != 0 && !rec.threw && !os.hard_fired && exists) {
+        // the file is a function of the object, not of what the destination held before
+        std::string fp = path + ".fresh";
+        std::vector<uint8_t> fresh;
+        disk_remove(fp);
+        bool ok = true;
+        disk_begin_op(FaultSpec());
+        try { obj->write(fp); } catch (...) { ok = false; }
+        disk_end_op();
+        if (ok && disk_get(fp, fresh) && fresh != img) {
+            size_t k = 0;
+            while (k < fresh.size() && k < img.size() && fresh[k] == img[k]) ++k;
+            violate("C14", "destination-history-changes-file", "the same object saved over an existing file (" + tos(img.size()) + " bytes result) and to a fresh path (" + tos(fresh.size()) + " bytes) differ, first at offset " + tos(k));
+        }
+        disk_remove(fp);
+        (void)disk_take_undefined_write(nullptr);
     }
     if (!stop && on(ORC_C14)) {
         std::string fc, d = diff_snapshots(before, cur, DiffOpts(), &fc);
@@ -1378,12 +1478,15 @@ void World::doReload(const Step &st, StepRecord &rec) {
         // sub-frames per frame: memory without bytes in the file), the simulator's limit was hit, not a property.
         const BudgetState &bs = budget_state();
         if ((rec.exc == "budget_heap" || rec.exc == "budget_read") && bs.in_data && std::strstr(bs.kind, "beyond") == nullptr) {
-            uint64_t values = 0, objects = 0;
+            // (a sub-frame without channels carries no sample and no byte in the file: their number is not content)
+            const ClaimedCounts &cc = bs.claimed;
+            bool same = cc.frames == sv.snap.frames.size();
             for (const SnapFrame &fr : sv.snap.frames) {
-                values += 4 * fr.pts.size(); objects += 2 + fr.pts.size();
-                for (const auto &sub : fr.subs) { values += sub.size(); objects += 1 + sub.size(); }
+                if (!same) break;
+                same = fr.pts.size() == cc.points && (cc.channels == 0 || fr.subs.size() == cc.subframes);
+                for (const auto &sub : fr.subs) if (sub.size() != cc.channels) same = false;
             }
-            if (values == bs.claimed_values && objects == bs.claimed_objects) { probe("reload.stopped-by-simulator-budget"); return; }
+            if (same) { probe("reload.stopped-by-simulator-budget"); return; }
         }
         if (enabled) violate(prop, "reload-failed/" + rec.exc, "a file the library saved does not load back: " + rec.exc + " (" + what + ")");
         return;
@@ -1476,6 +1579,7 @@ void World::run() {
         case OP_BULK_FRAMES: doBulk(st, rec); break;
         case OP_PARAM_EDIT: doParamEdit(st, rec); break;
         case OP_FRAME_DUP: doFrameDup(st, rec); break;
+        case OP_LOOKUP: doLookup(st, rec); break;
         default: rec.skipped = true; break;
         }
         rec.snap_hash = obj ? hash_snapshot(cur) : 0;
